@@ -10,6 +10,7 @@ from common import *
 import sched_common as S
 import sched_gen as G
 import c07_multi as M
+import c07_midphase as MP
 from fractions import Fraction as F
 from math import ceil
 import itertools
@@ -565,6 +566,8 @@ def static_part(run, n):
 def check(run):
     n = 260 if run.tier == "quick" else 3000
     merge_part(run, n)
+    # callbacks that change the set of tracks during the track phase (unschedule / mute a neighbour, stop themselves, schedule)
+    MP.midphase_part(run, 60 if run.tier == "quick" else 700, with_instances=False)
     static_part(run, 240 if run.tier == "quick" else 3000)
     # the same static / current-time / globals objects used by tracks of several timelines (one after the other, alternately)
     M.multi_part(run, 120 if run.tier == "quick" else 1500)
@@ -577,6 +580,8 @@ def check(run):
 def replay(run, doc):
     if doc.get("part") == "multi":
         return M.replay_multi(run, doc)
+    if doc.get("part") == "midphase":
+        return MP.replay_midphase(run, doc)
     if doc.get("part") == "static":
         r = run.impl("static_impl", {"programs": [doc["program"]]})["results"][0]
         bad = static_oracle(doc["program"], r["log"]) if "log" in r else [("driver", r)]
